@@ -523,6 +523,8 @@ def run(prog, tier, extra=None):
 
     # "the pool holds only transactions that are valid against the ledger": nothing enters it around Transaction::validate
     from ._include import include
+    include(res, prog, tier, extra, "c01", ["C01.utxo-lookup"],
+            "the sweep after every block addition keeps a pooled transaction on validate_against_utxoset's word: it must look every input up for every pooled type")
     include(res, prog, tier, extra, "c01", ["C01.who-may-insert"],
             "every path into Mempool.transactions goes through Transaction::validate (also the re-adding of a refused own block's transactions)")
     res.explanation = (
